@@ -151,7 +151,9 @@ def Ctx.readerSub (c : Ctx) (t : Topic) (a : Actor) (want : String) (priv : Priv
   let privCached : Tok := match sub, priv with
     | some s, .absent => s.priv
     | _, _ => privTok
-  let ud : PUD := { want := wantM, given := modeCChnReader, priv := privCached, isChan := true }
+  -- the marks the reader has reached come with the row: stale notes are checked against them
+  let (r0, v0, d0) : Int × Int × Int := match sub with | some s => (s.readId, s.recvId, s.delId) | none => (0, 0, 0)
+  let ud : PUD := { want := wantM, given := modeCChnReader, priv := privCached, isChan := true, readId := r0, recvId := v0, delId := d0 }
   let (c, ok) := match sub with
     | none => c.csubsCreate tn (newSubRow a.uid wantM modeCChnReader privTok)
     | some _ =>
@@ -367,8 +369,9 @@ def Ctx.opNoteC (c : Ctx) (a : Actor) (tn : TName) (viaChn : Bool) (what : Strin
     if t.inactive then c else
     if seqArg > t.lastId then c else
     if viaChn ∧ !t.isChan then c else
-    let asChan := viaChn && t.isChan
     let pud := t.pud a.uid
+    -- a channel reader is one whichever name the note uses for the topic
+    let asChan := (viaChn && t.isChan) || pud.isChan
     if !notePass t (eff pud) what then c else
     match noteMarks pud what seqArg with
     | none => c
@@ -378,6 +381,7 @@ def Ctx.opNoteC (c : Ctx) (a : Actor) (tn : TName) (viaChn : Bool) (what : Strin
           let upd (s : SubRow) : SubRow :=
             let s := if recv > 0 then { s with recvId := recv } else s
             if read > 0 then { s with readId := read } else s
+          -- the reader's row; a subscriber who used the `chn` spelling has no row under that name: the write changes nothing
           let (c, ok) := if asChan then c.csubsUpdate tn a.uid upd else c.subsUpdate tn a.uid upd
           if !ok then (c, false) else
           let c := if read > 0 then { c with pushes := c.pushes ++ [s!"push what=read topic={tn} seq={read} to=\{{a.uid}} chan=-"] } else c
@@ -386,8 +390,10 @@ def Ctx.opNoteC (c : Ctx) (a : Actor) (tn : TName) (viaChn : Bool) (what : Strin
       match stored with
       | (c, false) => c
       | (c, true) =>
-        -- a channel reader's note goes no further: neither cached nor relayed
-        if asChan then c else
+        -- a channel reader's note is not relayed; the reader's cached marks follow the stored ones
+        if asChan then
+          (if pud.isChan ∧ (if read > 0 then read else recv) > 0 then c.putLive (t.setPud a.uid pud') else c)
+        else
         let t := if (if read > 0 then read else recv) > 0 then t.setPud a.uid pud' else t
         let c := c.fanoutInfoC t a.sid a.uid what s!"info {tn} from={a.uid} what={what} seq={seqArg}"
         c.putLive t
